@@ -9,9 +9,11 @@ import subprocess
 from concurrent.futures import ThreadPoolExecutor
 
 from vt import core
+from vt.harness import c09_pages as pages
 
 LEVEL = "proof"
-PH = "ZQPHZ"
+PH = pages.PH
+PROOF_DIRS = []
 OPAQUE = ["nowiki", "pre", "math", "source", "syntaxhighlight", "timeline"]
 
 # --------------------------------------------------------------------------- search: generation
@@ -417,12 +419,71 @@ def roundtrip_monitor(run, c, r):
                 run.hit("marker:malformed:" + json.dumps(m), "marker %r is not a single t_uniq token / not inert" % m, {"kind": "roundtrip", "case": c})
 
 
+MARKER_RX = re.compile("\x7fUNIQ-[a-z0-9]+-[0-9]+-[0-9a-f]+-QINU\x7f")
+
+
+def regions_monitor(c, r):
+    """By-construction oracle for texts sep0 R0 sep1 R1 .. ('<'-free separators, regions known): every region is
+    attributed separately -- the marker standing at the place of region i resolves, in the table of the real
+    Uniquifier, to region i's own tag name, attributes and body, and restoring gives back region i's own source
+    (its body for nowiki).  Returns None or (what, index)."""
+    exp, seps = c["expect"], c["seps"]
+    if "error" in r:
+        return None
+    tab = {e[0]: e for e in r["table"]}
+    pos = 0
+    prot = r["protected"]
+    for i, (tag, vlist, inner, complete) in enumerate(exp):
+        if not prot.startswith(seps[i], pos):
+            return ("surrounding text changed before region %d: %r" % (i, prot[pos:pos + 60]), i)
+        pos += len(seps[i])
+        m = MARKER_RX.match(prot, pos)
+        if not m:
+            return ("region %d <%s> is not replaced by a marker: %r" % (i, tag, prot[pos:pos + 60]), i)
+        e = tab.get(m.group(0))
+        if e is None:
+            return ("marker of region %d is not in the table" % i, i)
+        if [e[1], e[2], e[3], e[4]] != [tag, vlist, inner, complete]:
+            return ("the marker at the place of region %d resolves to <%s%s> body %r source %r, but the region written there is <%s%s> body %r"
+                    % (i, e[1], e[2], e[3][:80], e[4][:80], tag, vlist, inner[:80]), i)
+        pos = m.end()
+    if prot[pos:] != seps[len(exp)]:
+        return ("surrounding text changed after the last region: %r" % prot[pos:pos + 60], len(exp))
+    want = "".join(s + e[3] for s, e in zip(seps, exp)) + seps[len(exp)]
+    if r["restored"] != want:
+        return ("restored text %r, expected %r" % (r["restored"][:120], want[:120]), 0)
+    return None
+
+
+def shrink_region_case(c, src):
+    """minimise a failing by-construction case: normalise separators, then drop regions / shrink bodies."""
+    spec = c["spec"]
+    n = len(spec["regions"])
+
+    def mk(sf_list, seps_of):
+        return [pages.make_region_tie_case(j, s, seps_of(s), c["rand"], c["k0"]) for j, (s, _f) in enumerate(sf_list)]
+
+    def fails_with(seps_of):
+        def fails(sf_list):
+            cs = mk(sf_list, seps_of)
+            rs = impl_run(cs, src)
+            return [regions_monitor(cc, rr) is not None or "error" in rr for cc, rr in zip(cs, rs)]
+        return fails
+
+    plain = lambda s: [" "] * (len(s["regions"]) + 1)      # noqa: E731
+    if fails_with(plain)([(spec, None)])[0]:
+        spec2, _ = pages.shrink(spec, None, fails_with(plain))
+        return pages.make_region_tie_case(0, spec2, plain(spec2), c["rand"], c["k0"])
+    return c
+
+
 def run_tie(run, cases, exe, src):
     ires = impl_run(cases, src)
-    mres = model_run(exe, cases)
+    mres = model_run(exe, cases) if exe else [None] * len(cases)
     dis = []
     coll = _Collect()
     stats = {"tags_protected": 0, "comments": 0, "no_match": 0, "with_0x7f": 0, "exotic_fold": 0, "unclosed_or_selfclosing_text": 0}
+    misattributed = []
     for c, a, m in zip(cases, ires, mres):
         t = c["text"]
         key = (c["rand"], c["k0"], t, c["probe"])
@@ -437,8 +498,14 @@ def run_tie(run, cases, exe, src):
         stats["exotic_fold"] += any(ch in t for ch in EXOTIC.values())
         run.count(key, nontrivial=(ntags > 0 or a["protected"] != t))
         roundtrip_monitor(coll, c, a)
+        if "expect" in c:
+            stats["multi_region_texts"] = stats.get("multi_region_texts", 0) + 1
+            bad = regions_monitor(c, a)
+            if bad:
+                misattributed.append((c, bad[0]))
         if m is None:
-            dis.append("model driver error on %r" % t[:100])
+            if exe:
+                dis.append("model driver error on %r" % t[:100])
             continue
         for fld in ("protected", "restored", "probe_restored"):
             if a[fld] != m[fld]:
@@ -451,6 +518,19 @@ def run_tie(run, cases, exe, src):
             run.sample({"tie_text": t, "protected": a["protected"], "restored": a["restored"], "table": a["table"][:2]})
     for fp, (what, rp) in sorted(coll.hits.items()):
         run.hit(fp, what, rp)
+    # several regions on one page: minimise the smallest few misattributed texts, report distinct minima
+    misattributed.sort(key=lambda cw: (len(cw[0]["text"]), cw[0]["text"]))
+    seen = set()
+    for c, what in misattributed[:3]:
+        m = shrink_region_case(c, src)
+        fp = "regions:misattributed:" + json.dumps(m["text"])
+        if fp in seen:
+            continue
+        seen.add(fp)
+        bad = regions_monitor(m, impl_run([m], src)[0])
+        run.hit(fp, "several protected regions in one text are not attributed separately (%d such texts): %r: %s"
+                % (len(misattributed), m["text"], (bad or (what,))[0]), {"kind": "roundtrip", "case": m})
+    stats["multi_region_misattributed"] = len(misattributed)
     return dis, stats
 
 
@@ -505,8 +585,12 @@ def check(run):
 
     def gen():
         info.update(generate(src))
-    run.check_proofs("C09", gen=gen)
-    exe = build()
+    run.check_proofs("C09", gen=gen, dirs=PROOF_DIRS)
+    try:
+        exe = build()
+    except Exception as e:      # fail-closed for the verdict, but the monitors below still run on the real code
+        exe = None
+        run.obligation("extracted model builds", False, "%s: %s" % (type(e).__name__, str(e)[-300:]))
     tier = run.tier
     names = info.get("names") or OPAQUE
 
@@ -524,14 +608,27 @@ def check(run):
     n = 2200 if tier == "quick" else 120000
     base = len(cases)
     cases += [gen_tie_case(run.rng, base + i, names, tier) for i in range(n)]
+    # texts with several related regions ('<'-free separators: regions known by construction, see regions_monitor)
+    base = len(cases)
+    rspecs = [dict(sp, layout="top", db=False, regions=[dict(r, place="page") for r in sp["regions"]])
+              for sp in pages.systematic_pages(lambda tag, k: pages.SIMPLE_BODIES[k % len(pages.SIMPLE_BODIES)])
+              if sp["layout"] == "top" and not sp["db"]]
+    rspecs += [pages.gen_page(run.rng, FRAGS, ATTRS + [" a=b", "\tx='y'"], 3, places=False) for _ in range(700 if tier == "quick" else 30000)]
+    for sp in rspecs:
+        sp["db"] = False
+        seps = [run.rng.choice(pages.TIE_SEPS) for _ in range(len(sp["regions"]) + 1)]
+        cases.append(pages.make_region_tie_case(base, sp, seps, run.rng.choice(RANDS), run.rng.choice([0, 0, 1, 9, 10])))
+        base += 1
     dis, stats = run_tie(run, cases, exe, src)
     run.tie("Uniquifier.replace_tags / replace_uniq vs extracted protect / restore (text, table, restored text, probe)", len(cases), dis)
     run.coverage["tie_distribution"] = stats
 
     # ---- model-level finite obligations that depend on the generated tables
-    mres = model_run(exe, [c for c in cases[:400]])
+    mres = model_run(exe, [c for c in cases[:400]]) if exe else []
     bad = [c["text"] for c, m in zip(cases[:400], mres) if m and not (m["tuniq"] and m["tok"])
            and all(re.fullmatch("[a-z0-9]+", e[1]) for e in m["table"])]
+    if not exe:
+        bad = ["no extracted model"]
     run.obligation("extracted: every produced marker is one t_uniq token and one template text token", not bad, "; ".join(map(repr, bad[:3])))
 
     # ---- search on the real parser
@@ -542,8 +639,15 @@ def check(run):
     contexts = dict(CONTEXTS)
     contexts.update(THOROUGH_CONTEXTS)      # corpus cases may use any context: attribution/shrinking know them all
     for i, c in enumerate(ctree):
-        c = dict(c, id=len(scases) + i)
+        c = dict(c, id=len(scases))
         scases.append(c)
+    # pages with several related regions; every opaque region of a page is the focus of one case
+    mspecs = pages.systematic_pages(lambda tag, k: pages.SIMPLE_BODIES[k % len(pages.SIMPLE_BODIES)])
+    mspecs += [pages.gen_page(run.rng, FRAGS, ATTRS, 3 if tier == "quick" else 5) for _ in range(900 if tier == "quick" else 25000)]
+    n_single = len(scases)
+    for sp in mspecs:
+        for f in pages.foci(sp):
+            scases.append(pages.make_case(len(scases), sp, f))
     nproc = 4 if tier == "quick" else 16
     sres = run_tree(scases, src, nproc)
     kinds = {}
@@ -559,6 +663,8 @@ def check(run):
             run.sample({"wikitext": c["raw"], "db": c["db"], "leaf": r.get("leaf")})
     # attribution by difference: does the mismatch disappear when the suspected construct is neutralised?
     attributed = {}
+    multi_failing = [(c, r) for c, r in failing if "spec" in c]
+    failing = [(c, r) for c, r in failing if "spec" not in c]
     for c, r in failing:
         if c["ctx"] == "ref" and (r["kind"] == "lost" or "UNIQ-" in r["why"]):
             attributed[id(c)] = "ref-nodb"
@@ -601,7 +707,28 @@ def check(run):
                 seen.add(fp)
                 run.hit(fp, "body of <%s> not opaque in context %s: %r (%s)" % (m["tag"], m["ctx"], m["body"], r["why"][:200]),
                         {"kind": "tree", "case": m, "why": r["why"]})
+    # several regions on one page: minimise (drop regions, simplify placement, shrink literal bodies -- copies follow)
+    multi_failing.sort(key=lambda cr: (len(cr[0]["raw"]), cr[0]["raw"], cr[0]["focus"]))
+
+    def tree_fails(sf_list):
+        cs = [pages.make_case(j, sp, f) for j, (sp, f) in enumerate(sf_list)]
+        return [not r["ok"] and r["kind"] in ("mismatch", "exception") for r in run_tree(cs, src, 4)]
+    seen = set()
+    for c, r in multi_failing[:3]:
+        if r["kind"] in ("mismatch", "exception"):
+            sp, f = pages.shrink(c["spec"], c["focus"], tree_fails)
+            m = pages.make_case(0, sp, f)
+            r = run_tree([m], src, 1)[0]
+        else:
+            m = c
+        fp = "opacity:multi-region:%s:%s" % (m["tag"], json.dumps([m["raw"], m["db"]], sort_keys=True))
+        if fp in seen:
+            continue
+        seen.add(fp)
+        run.hit(fp, "page with several protected regions (%d failing cases): region <%s> body %r is not delivered verbatim / another region changes with it: %r: %s"
+                % (len(multi_failing), m["tag"], m["body"], m["raw"], r["why"][:200]), {"kind": "tree", "case": m, "why": r["why"]})
     run.coverage["search_outcomes"] = kinds
+    run.coverage["search_multi_region"] = {"pages": len(mspecs), "cases": len(scases) - n_single, "failing": len(multi_failing)}
     run.coverage["search_exceptions"] = [{"wikitext": c["raw"], "why": r["why"]} for c, r in failing if r["kind"] == "exception"][:5]
     run.coverage["search_mismatch_classes"] = {k: len(v) for k, v in by_class.items()}
     run.coverage["exhaustive"] = False
@@ -610,9 +737,15 @@ def check(run):
     dist = {}
     for c in scases:
         dist[c["ctx"]] = dist.get(c["ctx"], 0) + 1
+    rel = {}
+    for sp in mspecs:
+        for rg in sp["regions"]:
+            k = "literal" if "wrap" not in rg else "copy-of-" + rg["part"] + (":nowiki" if rg["tag"] == "nowiki" else "")
+            rel[k] = rel.get(k, 0) + 1
     run.coverage["input_distribution"] = {"search_cases_per_context": dist,
                                           "search_cases_per_tag": {t: sum(1 for c in scases if c["tag"] == t) for t in OPAQUE},
                                           "search_body_len_max": max(len(c["body"]) for c in scases),
+                                          "multi_region_pages": len(mspecs), "multi_region_region_kinds": rel,
                                           "tie_cases": len(cases), "tie_text_len_max": max(len(c["text"]) for c in cases)}
 
 
